@@ -16,7 +16,7 @@ TECHNIQUE = "differential testing across fresh interpreters: generated scenario 
 RULE = ("Case = generated scenario (any geometry incl. x0 omitted, deterministic and noisy targets drawing from numpy's global "
         "generator, random_seed fixed) x generated prior history (draws from np.random through several APIs and re-seeding, "
         "unrelated BADS instances of other D/options/seeds constructed and/or run before, and others constructed or run between "
-        "constructing and running the instance under test, np.seterr and logging-level changes, a different PYTHONHASHSEED). "
+        "constructing and running the instance under test, np.seterr, np.set_printoptions and logging-level changes, a different PYTHONHASHSEED). "
         "Reference = the scenario alone in a fresh interpreter; test = history then the scenario, twice back to back, in "
         "another fresh interpreter. Every float compared bit for bit (hex): all target arguments and returned values, x, fval, "
         "fsd, func_count, message, iterations, mesh_size, yval_vec and the (possibly random) x0. Non-trivial = history with >= 1 "
@@ -40,7 +40,11 @@ N = {"quick": 96, "thorough": 1500}
 
 @st.composite
 def ops(draw):
-    kind = draw(st.sampled_from(["rng", "rng", "run_foreign", "construct_foreign", "seterr", "logging"]))
+    kind = draw(st.sampled_from(["rng", "rng", "run_foreign", "construct_foreign", "seterr", "logging", "printoptions"]))
+    if kind == "printoptions":
+        # process-wide NumPy display settings (summarisation threshold, line width, precision): pure presentation state
+        return ["printoptions", draw(st.sampled_from([dict(threshold=1, edgeitems=1), dict(threshold=2, edgeitems=1), dict(linewidth=8),
+                                                      dict(precision=3, suppress=True), dict(threshold=0, edgeitems=2, linewidth=20)]))]
     if kind == "rng":
         return ["rng", draw(st.sampled_from(["rand", "randn", "randint", "permutation", "seed", "uniform"])), draw(st.integers(1, 1000))]
     if kind in ("run_foreign", "construct_foreign"):
@@ -52,7 +56,8 @@ def ops(draw):
 
 @st.composite
 def cases(draw):
-    scn = draw(scenario.scenario(PROFILE))
+    # 0-2 advanced options at non-default values: other code paths, same obligation
+    scn = draw(scenario.with_adv_opts(PROFILE, kmin=0, kmax=2))
     before = draw(st.lists(ops(), min_size=0, max_size=4))
     between = draw(st.lists(ops(), min_size=0, max_size=3))
     return dict(scn=scn, history=dict(before=before, between=between), hashseed=draw(st.sampled_from(["0", "1", "12345", "random"])))
@@ -110,6 +115,7 @@ def body(case):
     labs += ["hist:empty"] if not allops else []
     labs += ["hashseed=" + case["hashseed"]]
     labs += ["ref:exception"] if "exception" in ref else []
+    labs += [f"opt:{n}" for n in scn.get("adv", [])] + (["advopts"] if scn.get("adv") else [])
     if nt:
         labs.append("nontrivial")
     return dict(violations=v, labels=labs, nontrivial=nt, oracle_evals=2 * len(ref["calls"]) + 16,
